@@ -360,8 +360,10 @@ fn btpe<R: Rng + ?Sized>(btpe: Btpe, flipped: bool, rng: &mut R) -> u64 {
             -((m - y) as f64)
         };
         if alpha
-            > x_m * (f1 / x1).ln()
-                + (((n - m) as f64) + 0.5) * (z / w).ln()
+            // f1 / x1 = 1 - (y - m) / x1 and z / w = 1 + (y - m) / w: for large m or n these
+            // ratios are too close to 1 for their logarithm to survive the division
+            > x_m * (-y_sub_m / x1).ln_1p()
+                + (((n - m) as f64) + 0.5) * (y_sub_m / w).ln_1p()
                 + y_sub_m * (w * btpe.p / (x1 * q)).ln()
                 // We use the signs from the GSL implementation, which are
                 // different than the ones in the reference. According to
